@@ -43,6 +43,7 @@ def run(ctx, rep):
     # B9: the declared types survive substitution - parameter names are whole-identifier keys, replacement text is not re-scanned
     rep.run(RI.rule_typenames_are_keys, ctx, rep, "B9")
     rep.run(RI.rule_simultaneous_substitution, ctx, rep, "B9")
+    rep.run(RI.rule_substitution_input_is_the_declaration, ctx, rep, "B9")
     # B10: the passing mode a binding declares (const, shared / raw pointer, reference) is the declared one: every rebuilt Type forwards
     # each qualifier of the original to the parameter of the same name (= C02/S4)
     rep.run(RI.rule_qualifier_forwarding, ctx, rep, "B10", min_sites=3)
